@@ -775,13 +775,13 @@ def check_sizes(ctx, ff, ffp, model, tag):
     for what, e, g in (("parameters", exp[0], got["parameters"]), ("activations", exp[1], got["activations"])):
       if int(g) != int(e):
         ctx.violation({"part": "size", "kind": "size_model_differs", "what": what, "cls": c},
-                      "%s of %s (%s): size model %r, elements x bits = %r" % (what, layer.name, c, g, e),
+                      "%s of %s (%s): size model %r, elements x bits = %r" % (what, layer.name, c, int(g), int(e)),
                       {"layer": layer.name, "quantizers": [str(q) for q in layer.get_quantizers()] if hasattr(layer, "get_quantizers") else None,
                        "activation": str(getattr(layer, "activation", None)), "ff": ffp})
     et = ("parameters" in lc) * exp[0] + ("activations" in lc) * exp[1]
     if int(got["total"]) != int(et):
       ctx.violation({"part": "size", "kind": "size_model_differs", "what": "total", "cls": c},
-                    "total of %s: %r, expected %r under %r" % (layer.name, got["total"], et, lc), None)
+                    "total of %s: %r, expected %r under %r" % (layer.name, int(got["total"]), int(et), lc), None)
   if int(total) != int(tsum):
     ctx.violation({"part": "size", "kind": "size_model_differs", "what": "model_total", "cls": "model"},
                   "model total %r != sum of layer totals %r" % (total, tsum), None)
@@ -1004,7 +1004,15 @@ def run_hp(case, ctx):
 
   exhaustive = scn["mode"] == "exhaustive"
   first = hpstub.HPStub(script=[], fallback="first" if exhaustive else "default")
-  leaf(first)
+  res_first = leaf(first)
+  first_leaf = None
+  if res_first is not None:
+    first_leaf = {"answers": first.answers(),
+                  "trial_layers": [[l.name, type(l).__name__,
+                                    [str(q) for q in l.get_quantizers()] if hasattr(l, "get_quantizers") else
+                                    ([str(l.quantizer)] if hasattr(l, "quantizer") else None),
+                                    act_name(getattr(l, "activation", None)) if not is_quantizer(getattr(l, "activation", None))
+                                    else str(l.activation)] for l in res_first[0].layers]}
   names = [s[0] for s in first.shape()]
   radices = [s[1] for s in first.shape()]
   total = hpstub.count_product(radices)
@@ -1102,7 +1110,7 @@ def run_hp(case, ctx):
                "exhaustive": bool(exhaustive and complete), "shards": nshards,
                "pairwise_rows": n_pairwise, "random_rows": (None if exhaustive else scn["extra_random"])}
     ctx.seen("hp.scenarios", _js(summary))
-    ctx.sample(summary)
+    ctx.sample(dict(summary, first_leaf=first_leaf))
 
 
 # ----------------------------------------------------------------------------- delta grid
